@@ -61,7 +61,12 @@ func Heartbeat() {
 }
 
 // RunWorker executes shard k of n of the property and prints the Rec as JSON.
+// WorkerDeadline is the wall-clock deadline of the running worker (zero: none). Families whose single cases can run
+// for minutes (schedule trees) consult it themselves; RunWorker only looks between cases.
+var WorkerDeadline time.Time
+
 func RunWorker(p *Prop, tier string, k, n int, trace bool, deadline time.Time) {
+	WorkerDeadline = deadline
 	r := NewRec()
 	if p.Setup != nil {
 		p.Setup(tier)
@@ -96,7 +101,7 @@ func RunWorker(p *Prop, tier string, k, n int, trace bool, deadline time.Time) {
 			// the seed rotates the visiting order of this worker's blocks only
 			b := int64(k) + ((j+seed%mine+mine)%mine)*int64(n)
 			for i := b * stride; i < (b+1)*stride && i < f.Count; i++ {
-				if cnt&63 == 0 && !deadline.IsZero() && time.Now().After(deadline) {
+				if !deadline.IsZero() && time.Now().After(deadline) { // (checked before every case: one case may run for minutes)
 					cut = true
 					break
 				}
